@@ -412,6 +412,45 @@ def build():
     reg.add(Contract(LD, 'OneToManyMapLoader.convert_many_to_one', dict(self=OM, item_in_many=Any), returns=Any,
                      ensures=[('the-owner-or--1', lambda c: c.res == z3.If(z3.Select(c.old.dom(bwd(c.old, c.p.self)), c.p.item_in_many),
                                                                           z3.Select(c.old.val(bwd(c.old, c.p.self)), c.p.item_in_many), S.mk_int(-1)))]))
+    # ---- restore_indexing: a restored loader never hands out a bundle id that the index still mentions ----------------------------------------------------------------------
+    reg.add_class(ClassInfo('IndexRow', LD, {}, kind='opaque'))
+    index_rows = z3.Function('rows_of_the_index_table', I_, S.SeqP())
+
+    @reg.opaque('opaque_iter', 'DataModel', 'iteration over a loaded index table: its rows, in order')
+    def _dm_iter(ex, st, recv):
+        from lianvc.loops import Iter
+        seq = index_rows(gsel(st, 'tbl', S.addr(recv.t)))
+        return Iter(z3.Length(seq), lambda i, st2: V(S.at(seq, i), Opaque('IndexRow')), seq, None, 'tuple')
+    raw = z3.Function('index_row_data', S.PyObj(), S.PyObj())
+
+    @reg.extern_method('IndexRow', 'raw_data', 'Row.raw_data() of an index row: the pair (item id, bundle id) that export_indexing wrote (bundle id an int >= -1; assumed about the index file)')
+    def _raw(ex, st, node, recv, args, kwargs):
+        t = raw(recv.t)
+        st.assume(z3.And(S.is_tup(t), z3.Length(S.items(t)) == 2, S.is_int(S.at(S.items(t), 1)), S.ival(S.at(S.items(t), 1)) >= -1, S.items(t)[1] == S.at(S.items(t), 1),
+                         S.items(t)[0] == S.at(S.items(t), 0)))
+        return V(t, Tuple(Any, Int))
+
+    @reg.extern('os.path.exists', 'os.path.exists(path): some bool')
+    def _exists(ex, st, node, args, kwargs):
+        return V(S.mk_bool(S.fresh('exists', z3.BoolSort())), Bool)
+
+    def index_below_count(h, L):
+        """every index entry is -1 (pending) or a bundle id below bundle_count: a bundle id handed out later (new_bundle_id) is not one the index mentions"""
+        return z3.And(S.ival(h.attr(L, 'bundle_count')) >= 0,
+                      S.forall([iq], z3.Implies(z3.Select(h.dom(idx(h, L)), iq), z3.And(S.is_int(z3.Select(h.val(idx(h, L)), iq)),
+                                                                                    S.ival(z3.Select(h.val(idx(h, L)), iq)) < S.ival(h.attr(L, 'bundle_count')))),
+                               patterns=[z3.Select(h.val(idx(h, L)), iq)]))
+    reg.add(Contract(LD, 'GeneralLoader.restore_indexing', dict(self=GL), returns=NoneT,
+                     ghost_init=lambda ex, st: st.ghost.__setitem__('cur_loader', S.addr(st.env['self'].t)),
+                     requires=[('index-entries-point-below-the-bundle-count', lambda c: index_below_count(c.old, c.p.self))],
+                     loops={1: LoopSpec(invariants=[('index-entries-point-below-the-bundle-count', lambda c: z3.And(
+                         index_below_count(c.cur, c.p.self), c.cur.attr(c.p.self, 'item_id_to_bundle_id') == c.pre.attr(c.p.self, 'item_id_to_bundle_id'),
+                         S.ival(c.cur.attr(c.p.self, 'bundle_count')) >= S.ival(c.pre.attr(c.p.self, 'bundle_count'))))],
+                                        modifies=lambda c: {'attr:bundle_count': [c.p.self], 'dom': [c.pre.attr(c.p.self, 'item_id_to_bundle_id')], 'val': [c.pre.attr(c.p.self, 'item_id_to_bundle_id')]})},
+                     ensures=[('after-restoring,-every-index-entry-points-below-the-bundle-count-(a-new-bundle-id-never-reuses-a-bundle-the-index-still-mentions)', lambda c: index_below_count(c.new, c.p.self)),
+                              ('the-bundle-count-never-shrinks', lambda c: S.ival(c.new.attr(c.p.self, 'bundle_count')) >= S.ival(c.old.attr(c.p.self, 'bundle_count')))],
+                     modifies=lambda c: {'attr:bundle_count': [c.p.self], 'dom': [c.old.attr(c.p.self, 'item_id_to_bundle_id')], 'val': [c.old.attr(c.p.self, 'item_id_to_bundle_id')],
+                                         'ghost:tbl': (lambda a: a >= c.old.next)}))
     return reg, dict(has=has, get=get, node=node, lru_inv=lru_inv, node_fields=node_fields, kq=kq, GL=GL, LRU=LRU)
 
 
